@@ -101,6 +101,25 @@ class SegStr:
 
     # ---- positional operations -----------------------------------------
     def slice(self, lo, hi):
+        if (lo is None or lo == 0) and hi is not None and hi < 0:
+            # s[:-k] without needing the total length (fields of unknown width may precede)
+            k = -hi
+            segs = list(self.segs)
+            while k > 0 and segs:
+                last = segs[-1]
+                if last.kind == 'lit':
+                    if len(last.text) > k:
+                        segs[-1] = Seg('lit', text=last.text[:-k])
+                        k = 0
+                    else:
+                        k -= len(last.text)
+                        segs.pop()
+                else:
+                    if last.width is None or last.width > k:
+                        raise Cut(last, 'slice [:%d] cuts through field %r' % (hi, last))
+                    k -= last.width
+                    segs.pop()
+            return SegStr(segs)
         n = len(self)
         if lo is None:
             lo = 0
